@@ -1776,3 +1776,104 @@ Proof.
     + eexists. split; [reflexivity|]. simpl. split; [exact C2|].
       intros n Hn. rewrite !kind_at_shape. rewrite (C4 n Hn). reflexivity.
 Qed.
+
+(* ---------------------------------------------------------------- histories *)
+Definition Inv (c : agg_config) (m : flows) (seen : list (key * list (string * kind))) : Prop :=
+  forall k, match lookup m k with
+            | Some fl => exists sh, lookup_shape seen k = Some sh /\ stored_ok2 c sh (fl_rec fl) /\
+                                    typed_shape c sh = true
+            | None => lookup_shape seen k = None
+            end.
+
+Definition stepf (c : agg_config) (m : flows) (o : op) : flows := fst (step c m o).
+
+Lemma refinement_gen : forall c, wf_config c = true ->
+  forall h m seen, Inv c m seen -> typed_from c seen h = true ->
+  forall k, absf c (lookup (fold_left (stepf c) h m) k)
+            = fold_left (spec_step c) (events_of c h k) (absf c (lookup m k)).
+Proof.
+  intros c WF. induction h as [|o h IH]; intros m seen INV TY k; [reflexivity|].
+  destruct o as [r|k0].
+  - (* a record *)
+    cbn [typed_from] in TY. apply andb_prop in TY. destruct TY as [TS TY].
+    cbn [events_of fold_left]. unfold stepf at 2. cbn [step].
+    destruct (rec_key r) as [k0|] eqn:RK; [|discriminate].
+    unfold rec_key in RK. destruct (flow_key_of r) as [[k1 v4]| | |] eqn:FK; try discriminate.
+    cbn [fst] in RK. inversion RK; subst k1. cbn [lift_status fst snd].
+    assert (PRE : forall fl, lookup m k0 = Some fl -> stored_ok2 c (shape r) (fl_rec fl)).
+    { intros fl Hfl. pose proof (INV k0) as I0. rewrite Hfl in I0. destruct I0 as (sh & L1 & L2 & _).
+      rewrite L1 in TY. apply andb_prop in TY. destruct TY as [TY _]. apply shape_eqb_eq in TY.
+      subst sh. exact L2. }
+    destruct (add_or_update_refines c m k0 r v4 WF TS PRE) as (m' & A1 & A2 & A3 & (fl' & A4 & A5)).
+    rewrite A1. cbn [fst].
+    set (seen' := match lookup_shape seen k0 with Some _ => seen | None => (k0, shape r) :: seen end).
+    assert (TY' : typed_from c seen' h = true).
+    { unfold seen'. destruct (lookup_shape seen k0); [|exact TY]. apply andb_prop in TY. apply TY. }
+    assert (LS0 : lookup_shape seen' k0 = Some (shape r)).
+    { unfold seen'. destruct (lookup_shape seen k0) as [sh|] eqn:E.
+      - rewrite E. apply andb_prop in TY. destruct TY as [TY _]. apply shape_eqb_eq in TY. subst. reflexivity.
+      - simpl. rewrite key_eqb_refl. reflexivity. }
+    assert (LSO : forall k', k' <> k0 -> lookup_shape seen' k' = lookup_shape seen k').
+    { intros k' N. unfold seen'. destruct (lookup_shape seen k0); [reflexivity|]. simpl.
+      rewrite (proj2 (key_eqb_neq k0 k')) by congruence. reflexivity. }
+    assert (INV' : Inv c m' seen').
+    { intros k'. destruct (key_eqb k0 k') eqn:E.
+      - apply key_eqb_eq in E. subst k'. rewrite A4. exists (shape r).
+        split; [assumption|]. split; assumption.
+      - apply key_eqb_neq in E. rewrite A3, LSO by congruence. apply INV. }
+    rewrite (IH m' seen' INV' TY' k).
+    destruct (key_eqb k0 k) eqn:E.
+    + apply key_eqb_eq in E. subst k. cbn [fold_left]. rewrite A2. reflexivity.
+    + apply key_eqb_neq in E. rewrite A3 by congruence. reflexivity.
+  - (* a reset *)
+    cbn [typed_from] in TY. cbn [events_of fold_left]. unfold stepf at 2. cbn [step]. unfold reset_flow.
+    pose proof (INV k0) as I0.
+    destruct (lookup m k0) as [fl|] eqn:LK.
+    + destruct I0 as (sh & L1 & L2 & L3).
+      destruct (reset_refines c (fl_rec fl) sh WF L3 (proj1 L2)) as (ex' & R1 & R2 & R3 & R4).
+      rewrite R1. cbn [fst].
+      assert (INV' : Inv c (update m k0 (with_rec fl ex')) seen).
+      { intros k'. destruct (key_eqb k0 k') eqn:E.
+        - apply key_eqb_eq in E. subst k'. rewrite lookup_update_same. exists sh.
+          split; [assumption|]. split; [|assumption].
+          eapply stored_ok2_shape; [|exact L2]. simpl. exact R2.
+        - apply key_eqb_neq in E. rewrite lookup_update_other by congruence. apply INV. }
+      rewrite (IH _ seen INV' TY k).
+      destruct (key_eqb k0 k) eqn:E.
+      * apply key_eqb_eq in E. subst k. cbn [fold_left]. rewrite lookup_update_same, LK. simpl. rewrite R3. reflexivity.
+      * apply key_eqb_neq in E. rewrite lookup_update_other by congruence. reflexivity.
+    + cbn [fst]. rewrite (IH m seen INV TY k).
+      destruct (key_eqb k0 k) eqn:E; [|reflexivity].
+      apply key_eqb_eq in E. subst k. cbn [fold_left]. rewrite LK. reflexivity.
+Qed.
+
+(* C05: the aggregated record of every flow is what the per-node accumulators say *)
+Theorem aggregation_refinement : forall c h k,
+  wf_config c = true -> typed_history c h = true ->
+  absf c (lookup (run c h) k) = spec_flow c (events_of c h k).
+Proof.
+  intros c h k WF TY. unfold run, spec_flow.
+  change (fun m o => fst (step c m o)) with (stepf c).
+  apply (refinement_gen c WF h [] [] (fun _ => eq_refl) TY k).
+Qed.
+
+(* records with another 5-tuple never change flow k *)
+Lemma events_other_key : forall c h r k, rec_key r <> Some k ->
+  events_of c (h ++ [OpRec r]) k = events_of c h k.
+Proof.
+  intros c h r k N. induction h as [|o h IH]; simpl.
+  - destruct (rec_key r) as [k'|] eqn:E; [|reflexivity].
+    destruct (key_eqb k' k) eqn:E2; [|reflexivity]. apply key_eqb_eq in E2. subst. contradiction.
+  - destruct o as [r0|k0].
+    + destruct (rec_key r0) as [kk|]; [destruct (key_eqb kk k)|]; rewrite IH; reflexivity.
+    + destruct (key_eqb k0 k); rewrite IH; reflexivity.
+Qed.
+Theorem other_flows_unaffected : forall c h r k,
+  wf_config c = true -> typed_history c (h ++ [OpRec r]) = true -> typed_history c h = true ->
+  rec_key r <> Some k ->
+  absf c (lookup (run c (h ++ [OpRec r])) k) = absf c (lookup (run c h) k).
+Proof.
+  intros c h r k WF T1 T2 N.
+  rewrite (aggregation_refinement c _ k WF T1), (aggregation_refinement c h k WF T2).
+  rewrite events_other_key by assumption. reflexivity.
+Qed.
